@@ -9,8 +9,12 @@ containing all its field accesses) together with the general theorems: lockset s
 small-step interleaving semantics (lean/RomeaModel/Linearize.lean) to the serial machine — linearizability of the
 bodies built from the table for every field width and every data flow, with the per-class consequences
 (lean/RomeaModel/LinClasses.lean).
+`RateMonitoring` (critical sections on mutex_ plus a lock-free `getRate`) is covered by part 3
+(lean/RomeaProofs/Properties/C19Rate.lean): the generator also emits its EXTENDED entry `xcls_RateMonitoring` (atomic-member
+events split into loads `ald` / stores `ast` / other uses `armw`), `table_rate_monitoring_shaped` re-checks its shape by
+`decide` on every run, and `serialisable` / `rate_monitoring_serialisable` give the shape its meaning.
 Stage C is a ThreadSanitizer run of the real classes with real threads plus consistency checks of the values read,
-and a Python mirror of the two table checks that NAMES the offending method.
+and a Python mirror of the three table checks that NAMES the offending method.
 """
 import os
 import subprocess
@@ -24,12 +28,17 @@ LEVEL = 'other'
 DRIVER = None
 HARNESS = None
 SOURCES = []
-PROOF_MODULES = ['RomeaProofs.Properties.C19', 'RomeaProofs.Properties.C19Witness']
+PROOF_MODULES = ['RomeaProofs.Properties.C19', 'RomeaProofs.Properties.C19Witness', 'RomeaProofs.Properties.C19Rate']
 TRUSTED = ['tools/gen_locktable.py: translator from clang-14 AST (JSON) to per-method lock/access event lists; it errs towards '
            'reporting (anything unclassified is an unguarded write) and is cross-checked by the ThreadSanitizer run. Accesses through a '
-           'local reference/pointer alias of a member are represented by the event that creates the alias, not followed further',
+           'local reference/pointer alias of a member are represented by the event that creates the alias, not followed further. Its '
+           'classification of a use of a std::atomic / SharedVariable member as ONE load (`.load()`, conversion operator), ONE store '
+           '(`.store(v)`, `operator=`) or "other" (rejected by every shape) in the extended entry `xcls_RateMonitoring`',
            'lean/RomeaModel/Linearize.lean `ofEvents`: the reading of an event list as micro-steps (a field access = one step per word, '
-           'reads before writes; `wr` = read-modify-write with arbitrary data flow; the result is computed from everything read)',
+           'reads before writes; `wr` = read-modify-write with arbitrary data flow; the result is computed from everything read); '
+           'lean/RomeaModel/LinAtomic.lean `xofEvents`: the same for the extended lists — an atomic / internally synchronised member is a '
+           'ONE-word field, `ald` = one read step, `ast` = one read step + one write step (a store executed on some paths only is the data '
+           'flow that writes the word back)',
            'the DATA FLOW of the methods is not extracted from the source: every class theorem quantifies over it under a SEQUENTIAL '
            'contract (the method run alone refines its specification: a cell, a one-place buffer, "the report of this evaluation"); '
            'hand-written flows (LinClasses.lean, LinReport.lean) show the contracts satisfiable on today\'s event lists',
@@ -42,8 +51,12 @@ ASSUMPTIONS = ['single-threaded correctness of each method (store/load is a cell
                'check-up reports: consistency of every copy is proved for EVERY data flow of evaluate/timeout that meets the sequential '
                'contract "run alone, the call leaves status, message and value of its own evaluation" (the sequential behaviour is C18\'s '
                'subject); online statistics: proved for every data flow (values of a serial order), nothing about the arithmetic',
-               'RateMonitoring (getRate is a lone atomic load outside the mutex; update reads windowSize_ before locking) is NOT covered '
-               'by the reduction theorem — lock discipline (part 1) and the probe only; CheckupRate, which wraps it under its own mutex, is',
+               'RateMonitoring: `SharedVariable<Duration> lastDuration_` is read as ONE atomic word (its own linearizability is '
+               'shared_variable_linearizable; the composition is assumed, not proved) and `std::atomic<double> rate_` operations as '
+               'sequentially consistent single steps (load()/store() with the default memory_order_seq_cst); `windowSize_`, written by '
+               'no in-scope method, is constant while the monitor is shared (initialize() is configuration, out of scope); the theorem '
+               'is about EVERY data flow on today\'s event lists, so it says "the values are those of a serial order", not what the '
+               'rate is (C17\'s subject)',
                'operations in scope: update/store/evaluate/reset (writer) and load/consume/get*/isAvailable/getReport/heartbeat/timeout '
                '(readers), as the property lists them; configuration methods (setWindowSize, initialize) are out of scope']
 EXPLANATION = ('partial: Lean theorems, for any number of threads, any schedule, unbounded histories — (1) lock discipline => every '
@@ -51,14 +64,22 @@ EXPLANATION = ('partial: Lean theorems, for any number of threads, any schedule,
                'guard => every reachable state (calls in flight included) is explained by the serial execution of the calls in guard '
                'acquisition order (linearizability); kernel-checked on every run that the event lists regenerated from the clang AST of '
                'the current source obey the discipline and have that shape (all anchored classes except RateMonitoring for the shape); '
+               '(3) RateMonitoring — critical sections on mutex_ plus a lock-free getRate: writer bodies = [reads of constants], acq, a '
+               'critical section writing the atomic word at most once, rel, [reads of constants]; reader bodies = one atomic load => for '
+               'every schedule the completed calls\' return values and the store are those of a SERIAL execution of the same calls, '
+               'update/timeout in guard-acquisition order, each getRate placed at its load (theorem `serialisable`, '
+               '`rate_monitoring_serialisable`); kernel-checked on every run that the extended event lists of update/timeout/getRate '
+               '(atomic loads and stores told apart, also after the release) have that shape (`table_rate_monitoring_shaped`); '
                'consequences: SharedVariable is a linearizable cell never observed half-written (any width), SharedOptionalVariable a '
                'linearizable one-place buffer (consumed values = subsequence of stored values: exactly once, store order, overwritten '
                'values dropped), every report copy is the status/message/value of ONE evaluation, statistics getters return values of a '
                'serial order. Only exercised by the probe (ThreadSanitizer run of the real classes with value-consistency checks): the '
-               'real memory model, std::mutex, compiler reordering, RateMonitoring\'s atomics')
+               'real memory model, std::mutex, compiler reordering; for RateMonitoring the probe also checks the SEQUENTIAL invariant on '
+               'the real class (1 writer with stamps 0.6 s apart, 1..4 heartbeats with the same stamps: update returns exactly the rate '
+               'of the full window, never a rate zeroed by a heartbeat that slipped in)')
 
 SCENARIOS = ['shared_variable', 'shared_optional', 'online_average', 'online_variance', 'checkup_equal_to', 'checkup_greater_than',
-             'checkup_lower_than', 'checkup_reliability', 'rate_monitoring', 'checkup_rate_eq', 'checkup_rate_gt']
+             'checkup_lower_than', 'checkup_reliability', 'rate_monitoring', 'rate_monitoring_serial', 'checkup_rate_eq', 'checkup_rate_gt']
 TSAN_SOURCES = ['src/monitoring/OnlineAverage.cpp', 'src/monitoring/OnlineVariance.cpp', 'src/monitoring/RateMonitoring.cpp',
                 'src/diagnostics/CheckupRate.cpp', 'src/diagnostics/CheckupReliability.cpp', 'src/diagnostics/Diagnostic.cpp',
                 'src/diagnostics/DiagnosticReport.cpp', 'src/diagnostics/DiagnosticStatus.cpp']
@@ -178,6 +199,109 @@ def _shape_failures(table):
     return fails
 
 
+# ---- python mirror of Romea.Lin.xWriter / xReader / XClass.rateParams (lean/RomeaModel/LinAtomic.lean), only used to NAME the
+# ---- offending method of a class exempt from `table_lin_shaped`
+def _xwritten(xmethods):
+    return {f for _, evs in xmethods for k, f in evs if k in ('wr', 'ast', 'armw')}
+
+
+def _xreader(fa, evs):
+    return len(evs) == 1 and evs[0] == ('ald', fa)
+
+
+def _xwriter(g, fa, written, evs):
+    """None if the list has the writer shape, else what is wrong"""
+    i, n = 0, len(evs)
+    if not any(k == 'acq' for k, _ in evs):
+        return ('takes no lock and is not ONE atomic load of %s (its events: %s): a lock-free method may only be a lone load of the '
+                'atomic member' % (fa, ' '.join('%s(%s)' % e for e in evs) or 'none'))
+    while i < n and evs[i][0] != 'acq':
+        k, f = evs[i]
+        if not (k in ('rd', 'ald') and f not in written):
+            return '%s %s before taking %s (%s is written by an in-scope method)' % (
+                {'rd': 'reads', 'wr': 'writes / uses', 'ald': 'atomic load of', 'ast': 'atomic store to',
+                 'armw': 'unclassified use of atomic', 'escape': 'a reference escapes to', 'rel': 'releases'}.get(k, k), f, g, f)
+        i += 1
+    if i == n:
+        return 'never takes %s' % g
+    if evs[i][1] != g:
+        return 'takes %s, not the guard %s' % (evs[i][1], g)
+    i += 1
+    stores = 0
+    while i < n:
+        k, f = evs[i]
+        if k == 'rel':
+            if f != g:
+                return 'releases %s inside the critical section' % f
+            break
+        if k == 'acq':
+            return 'takes %s inside the critical section' % f
+        if k == 'escape':
+            return 'a reference to %s escapes (the caller copies after the release)' % f
+        if k == 'armw':
+            return 'use of the atomic member %s that is neither one load nor one store' % f
+        if k == 'wr' and f == fa:
+            return 'plain write / unclassified use of the atomic member %s' % f
+        if k == 'ast' and f == fa:
+            stores += 1
+            if stores > 1:
+                return ('stores to %s twice in one critical section: a lock-free load between the two sees a value no serial '
+                        'order produces' % f)
+        i += 1
+    if i == n:
+        return 'never releases %s' % g
+    for k, f in evs[i + 1:]:
+        if k == 'acq':
+            return 'a second critical section (takes %s again): an intermediate state is exposed between the two' % f
+        if not (k in ('rd', 'ald') and f not in written):
+            what = {'rd': 'reads %s', 'wr': 'writes / uses %s', 'ald': 'atomic load of %s', 'ast': 'atomic store to %s',
+                    'armw': 'unclassified use of atomic %s', 'escape': 'a reference to %s escapes'}.get(k, k + ' %s') % f
+            return ('%s AFTER the release of %s (%s is written by an in-scope method): the call is no longer atomic with respect '
+                    'to the other critical sections, although every access is still atomic or guarded' % (what, g, f))
+    return None
+
+
+def _rate_shape_failures(table):
+    fails = []
+    for c in table:
+        if c['name'] not in NOT_REDUCED:
+            continue
+        xms = c.get('xmethods')
+        if xms is None:
+            continue
+        written = _xwritten(xms)
+        mutexes = [f for f, t in c['fields'].items() if 'mutex' in t]
+        # the atomic member read outside the guard: the one a lone-load method reads, else any written field
+        lone = [evs[0][1] for _, evs in xms if len(evs) == 1 and evs[0][0] == 'ald']
+        lockfree = [f for _, evs in xms if not any(k == 'acq' for k, _ in evs) for k, f in evs if k in ('ald', 'ast', 'armw')]
+        cands = []
+        for f in lone + lockfree + sorted(written):
+            if f in written and f not in cands:
+                cands.append(f)
+        cands = cands or ['<no atomic member>']
+        best = None
+        for g in mutexes or ['<no mutex>']:
+            for fa in cands:
+                bad = []
+                for m, evs in xms:
+                    if _xreader(fa, evs):
+                        continue
+                    w = _xwriter(g, fa, written, evs)
+                    if w:
+                        bad.append((m, w))
+                if best is None or len(bad) < len(best):
+                    best = bad
+        for m, w in best or []:
+            fails.append({'kind': 'not-one-critical-section', 'detail': '%s::%s: %s' % (c['name'], m, w),
+                          'fields': {'class': c['name'], 'method': m, 'what': w},
+                          'replay': {'class': c['name'], 'method': m, 'what': w,
+                                     'events': [list(e) for e in dict(xms)[m]],
+                                     'theorem': 'Romea.C19.table_rate_monitoring_shaped (hypothesis of rate_monitoring_serialisable)',
+                                     'note': 'extended summary (atomic loads / stores told apart) regenerated from the clang AST of the '
+                                             'working tree; replay: python3 tools/gen_locktable.py <repo>'}})
+    return fails
+
+
 def extra_probe(ctx, stats):
     fails = []
     table = _TABLE.get('table')
@@ -188,6 +312,8 @@ def extra_probe(ctx, stats):
         fails += disc
         seen = {(f['fields']['class'], f['fields']['method']) for f in disc}
         fails += [f for f in _shape_failures(table) if (f['fields']['class'], f['fields']['method']) not in seen]
+        stats['rate_shape_checked_methods'] = sum(len(c.get('xmethods') or []) for c in table if c['name'] in NOT_REDUCED)
+        fails += [f for f in _rate_shape_failures(table) if (f['fields']['class'], f['fields']['method']) not in seen]
     # ---- ThreadSanitizer run
     exe = os.path.join(ctx['scratch'], 'c19_tsan')
     repo = ctx['repo']
@@ -205,7 +331,7 @@ def extra_probe(ctx, stats):
     runs = 0
     for (readers, prod, cons, ops) in configs:
         for s in SCENARIOS:
-            if ops > 100000 and s not in ('shared_variable', 'shared_optional', 'checkup_equal_to', 'rate_monitoring'):
+            if ops > 100000 and s not in ('shared_variable', 'shared_optional', 'checkup_equal_to', 'rate_monitoring', 'rate_monitoring_serial'):
                 continue
             n_ops = ops if s != 'shared_optional' else max(2000, ops // 20)
             try:
